@@ -72,6 +72,12 @@ func (t *tie) failWith(dir int, chunk []byte, cls string) {
 	}
 }
 
+func (t *tie) resume(dir int) {
+	if t.model != nil {
+		t.model.Resume(dir)
+	}
+}
+
 func (t *tie) checkEnc(dir int, fs []o4pair.Frame) {
 	if t.model == nil || t.encBad != nil {
 		return
